@@ -517,6 +517,24 @@ func (op *Op) Describe() map[string]interface{} {
 				out = append(out, hex.EncodeToString(t))
 			case common.Address:
 				out = append(out, "addr:"+t.ToBase58())
+			case [][]byte:
+				l := []string{}
+				for _, b := range t {
+					l = append(l, hex.EncodeToString(b))
+				}
+				out = append(out, "list["+strings.Join(l, ",")+"]")
+			case []Rec:
+				l := []string{}
+				for _, rec := range t {
+					f := []string{}
+					for _, x := range rec {
+						if b, ok := x.([]byte); ok {
+							f = append(f, hex.EncodeToString(b))
+						}
+					}
+					l = append(l, "{"+strings.Join(f, ",")+"}")
+				}
+				out = append(out, "list["+strings.Join(l, ",")+"]")
 			default:
 				out = append(out, fmt.Sprintf("%v", t))
 			}
